@@ -105,6 +105,7 @@ func runC16(c *Ctx) {
 	c16R4(e)
 	c16StaleToken(e)
 	c16TokenRules(e)
+	c16ParsingRules(e)
 	c16R5(e)
 }
 
